@@ -7,6 +7,9 @@ Statements are over the model of `chunk_get` / `data_get_public` / `get_vault_fr
 address comparison or the owner/signature checks changes the terms below and the proofs stop checking.
 The reply is whatever the swarm driver answers to `GetNetworkRecord` (a record, a split with any result map in any
 iteration order, or an error), i.e. every set of replies an adversarial set of holders can cause.
+`padKey owner` is the record key the scratchpad of `owner` lives under (the hash of its address); the network layer's
+split handling compares it with the key being read (`Gen.ClientRead.netSplitChecksPadKey`, regenerated from
+`ant-networking/src/lib.rs`).
 -/
 namespace SafeNet.Props.C15
 open SafeNet.Model.SelfEnc SafeNet.Model.ClientRead SafeNet.Proofs.ClientRead SafeNet.Proofs.SelfEnc
@@ -26,8 +29,8 @@ def Authentic (key : Nat) (p : Pad) : Prop := p.owner = key ∧ p.valid = true
 
 /-- An `Ok` chunk hashes to the requested address (and carries it as its address), and its content is one of the
 received records' bodies. -/
-theorem chunk_authentic (S : SE B DM) (addr : Nat) (reply : Reply B) (c : Chunk B)
-    (h : chunkGet S addr reply = .ok c) :
+theorem chunk_authentic (S : SE B DM) (padKey : Nat → Nat) (addr : Nat) (reply : Reply B) (c : Chunk B)
+    (h : chunkGet S padKey addr reply = .ok c) :
     S.hash c.value = addr ∧ c.address = addr := by
   unfold chunkGet at h
   split at h
@@ -49,9 +52,9 @@ theorem chunk_authentic (S : SE B DM) (addr : Nat) (reply : Reply B) (c : Chunk 
         · cases h
 
 /-- …and it was received under a `Chunk` header (wrong kinds are refused). -/
-theorem chunk_kind_checked (S : SE B DM) (addr : Nat) (reply : Reply B) (c : Chunk B)
-    (h : chunkGet S addr reply = .ok c) :
-    ∃ r, netGet reply = .ok r ∧ headerOf r = some .chunk ∧ r.body = .chunk c.value := by
+theorem chunk_kind_checked (S : SE B DM) (padKey : Nat → Nat) (addr : Nat) (reply : Reply B) (c : Chunk B)
+    (h : chunkGet S padKey addr reply = .ok c) :
+    ∃ r, netGet Gen.ClientRead.netSplitChecksPadKey padKey addr reply = .ok r ∧ headerOf r = some .chunk ∧ r.body = .chunk c.value := by
   unfold chunkGet at h
   split at h
   · cases h
@@ -78,31 +81,68 @@ theorem chunk_kind_checked (S : SE B DM) (addr : Nat) (reply : Reply B) (c : Chu
 
 /-- A successful public data read used a data-map chunk that hashes to the requested address, and every chunk any
 round of the fetch loop used hashes to the address the (authentic) data map names for it. -/
-theorem data_authentic (S : SE B DM) (replies : Nat → Reply B) (fuel : Nat) (codes : List (List Nat)) (addr : Nat)
-    (d : B) (h : dataGetPublic S replies fuel codes addr = .ok d) :
-    ∃ m : Chunk B, chunkGet S addr (replies addr) = .ok m ∧ S.hash m.value = addr ∧
-      fetchFromDataMapChunk S (fun a => chunkGet S a (replies a)) fuel codes m.value = .ok d ∧
-      ∀ a c, chunkGet S a (replies a) = .ok c → S.hash c.value = a := by
+theorem data_authentic (S : SE B DM) (padKey : Nat → Nat) (replies : Nat → Reply B) (fuel : Nat) (codes : List (List Nat))
+    (addr : Nat) (d : B) (h : dataGetPublic S padKey replies fuel codes addr = .ok d) :
+    ∃ m : Chunk B, chunkGet S padKey addr (replies addr) = .ok m ∧ S.hash m.value = addr ∧
+      fetchFromDataMapChunk S (fun a => chunkGet S padKey a (replies a)) fuel codes m.value = .ok d ∧
+      ∀ a c, chunkGet S padKey a (replies a) = .ok c → S.hash c.value = a := by
   unfold dataGetPublic at h
   split at h
   · cases h
   · rename_i m hm
-    exact ⟨m, hm, (chunk_authentic S addr _ m hm).1, h, fun a c hc => (chunk_authentic S a _ c hc).1⟩
+    exact ⟨m, hm, (chunk_authentic S padKey addr _ m hm).1, h, fun a c hc => (chunk_authentic S padKey a _ c hc).1⟩
 
-/-- Holders cannot substitute content: with a collision-free hash, any two successful public reads of the same
-address return the same data — whatever the two sets of holders replied, in whatever orders the fetches completed,
-through however many data-map levels. (So a read either fails or returns what an honest network returns.) -/
-theorem data_unforgeable (S : SE B DM) (L : Laws S) (replies replies' : Nat → Reply B) (fuel fuel' : Nat)
-    (codes codes' : List (List Nat)) (addr : Nat) (d d' : B)
-    (h : dataGetPublic S replies fuel codes addr = .ok d) (h' : dataGetPublic S replies' fuel' codes' addr = .ok d') :
+/-- a successful chunk read returns the body of one of the received records -/
+theorem chunk_from_received (S : SE B DM) (padKey : Nat → Nat) (addr : Nat) (reply : Reply B) (c : Chunk B)
+    (h : chunkGet S padKey addr reply = .ok c) : ∃ r ∈ received reply, r.body = .chunk c.value := by
+  obtain ⟨r, hnet, _, hbody⟩ := chunk_kind_checked S padKey addr reply c h
+  cases reply with
+  | ok r0 =>
+    simp only [netGet, Except.ok.injEq] at hnet
+    subst hnet
+    exact ⟨r0, by simp [received], hbody⟩
+  | err e =>
+    cases e with
+    | split m =>
+      simp only [netGet] at hnet
+      split at hnet
+      · rename_i r' hsplit
+        simp only [Except.ok.injEq] at hnet
+        subst hnet
+        obtain ⟨p0, hr, _⟩ := handleSplit_spec _ padKey addr m r' hsplit
+        subst hr
+        cases hbody
+      · cases hnet
+    | notFound => simp [netGet] at hnet
+    | timeout => simp [netGet] at hnet
+    | kindMismatch => simp [netGet] at hnet
+    | notEnoughCopies => simp [netGet] at hnet
+    | doesNotMatch => simp [netGet] at hnet
+
+/-- chunk content some holder of this reply set offers (under whatever key) -/
+def Offered (replies : Nat → Reply B) (v : B) : Prop := ∃ a, ∃ r ∈ received (replies a), r.body = .chunk v
+
+/-- Holders cannot substitute content: any two successful public reads of the same address return the same data —
+whatever the two sets of holders replied, in whatever orders the fetches completed, through however many data-map
+levels — unless the holders can exhibit a hash collision: all that is asked of the hash is that no two different chunk
+contents *among those the two reply sets offer* have the same hash (a hypothesis on the byte strings at hand, which a
+real hash can satisfy; no global injectivity). So a read either fails or returns what an honest network returns. -/
+theorem data_unforgeable (S : SE B DM) (L : Laws S) (padKey : Nat → Nat) (replies replies' : Nat → Reply B)
+    (fuel fuel' : Nat) (codes codes' : List (List Nat)) (addr : Nat) (d d' : B)
+    (hcf : ∀ v v', Offered replies v → Offered replies' v' → S.hash v = S.hash v' → v = v')
+    (h : dataGetPublic S padKey replies fuel codes addr = .ok d)
+    (h' : dataGetPublic S padKey replies' fuel' codes' addr = .ok d') :
     d = d' := by
-  obtain ⟨m, hm, hmh, hf, _⟩ := data_authentic S replies fuel codes addr d h
-  obtain ⟨m', hm', hmh', hf', _⟩ := data_authentic S replies' fuel' codes' addr d' h'
-  have hmm : m.value = m'.value := L.hash_inj _ _ (hmh.trans hmh'.symm)
+  obtain ⟨m, hm, hmh, hf, _⟩ := data_authentic S padKey replies fuel codes addr d h
+  obtain ⟨m', hm', hmh', hf', _⟩ := data_authentic S padKey replies' fuel' codes' addr d' h'
+  have hmm : m.value = m'.value :=
+    hcf _ _ ⟨addr, chunk_from_received S padKey addr _ m hm⟩ ⟨addr, chunk_from_received S padKey addr _ m' hm'⟩
+      (hmh.trans hmh'.symm)
   rw [← hmm] at hf'
   refine fetch_chunk_agree S L _ _ ?_ fuel fuel' codes codes' m.value d d' hf hf'
   intro a c c' hc hc'
-  exact L.hash_inj _ _ (((chunk_authentic S a _ c hc).1).trans ((chunk_authentic S a _ c' hc').1).symm)
+  exact hcf _ _ ⟨a, chunk_from_received S padKey a _ c hc⟩ ⟨a, chunk_from_received S padKey a _ c' hc'⟩
+    (((chunk_authentic S padKey a _ c hc).1).trans ((chunk_authentic S padKey a _ c' hc').1).symm)
 
 /-! ### vault_authentic -/
 
@@ -112,12 +152,54 @@ theorem okAccepts_iff (key : Nat) (p : Pad) : okAccepts key p = true ↔ Authent
 theorem splitAccepts_iff (key : Nat) (p : Pad) : splitAccepts key p = true ↔ Authentic key p := by
   simp [splitAccepts, Authentic, Gen.ClientRead.vaultSplitChecksOwner, Gen.ClientRead.vaultSplitChecksValid]
 
-/-- A returned pad is owned by the requested key, validly signed, is one of the received versions, and no validly
-signed version of the owner that was received as a scratchpad record has a higher counter. -/
-theorem vault_authentic (key : Nat) (reply : Reply B) (p : Pad) (h : getVault key reply = .ok p) :
+/-- `q` was received as a version of a scratchpad: in a record under a `Scratchpad` header whose body decodes as a
+scratchpad. (A scratchpad body behind a header of another kind is a malformed record, not a version: the network
+layer's split handling skips it once the kind is fixed, and no node stores it under a scratchpad key.) -/
+def ReceivedVersion (reply : Reply B) (q : Pad) : Prop :=
+  ∃ r ∈ received reply, headerOf r = some .scratchpad ∧ padOf r = some q
+
+/-- The split arm of the vault read on its own: the latest of the authentic versions in the map. -/
+theorem latestPads_spec (key : Nat) (m : List (Rec B)) (p : Pad) (rest : List Pad) (hsel : latestPads key m = p :: rest) :
+    Authentic key p ∧ (∃ r ∈ m, padOf r = some p) ∧
+      ∀ r ∈ m, ∀ q, padOf r = some q → Authentic key q → q.ctr ≤ p.ctr := by
+  simp only [latestPads, Gen.ClientRead.vaultSplitFiltersBeforeMax, ↓reduceIte] at hsel
+  have hmem : p ∈ ((m.filterMap padOf).filter (splitAccepts key)).filter
+      (fun p => p.ctr == maxCtr ((m.filterMap padOf).filter (splitAccepts key))) := by
+    rw [hsel]; exact List.mem_cons_self
+  rw [List.mem_filter] at hmem
+  obtain ⟨hin, hmax⟩ := hmem
+  rw [List.mem_filter, List.mem_filterMap] at hin
+  obtain ⟨⟨x, hx, hxp⟩, hacc⟩ := hin
+  refine ⟨(splitAccepts_iff key p).1 hacc, ⟨x, hx, hxp⟩, ?_⟩
+  intro y hy q hq hqa
+  have hqin : q ∈ (m.filterMap padOf).filter (splitAccepts key) := by
+    rw [List.mem_filter, List.mem_filterMap]
+    exact ⟨⟨y, hy, hq⟩, (splitAccepts_iff key q).2 hqa⟩
+  have := maxCtr_ge _ q hqin
+  simp only [beq_iff_eq] at hmax
+  omega
+
+/-- …and it is non-empty as soon as the map holds one authentic version. -/
+theorem latestPads_ne_nil (key : Nat) (m : List (Rec B)) (hex : ∃ r ∈ m, ∃ q, padOf r = some q ∧ Authentic key q) :
+    latestPads key m ≠ [] := by
+  obtain ⟨r0, hr0, q0, hq0, hq0a⟩ := hex
+  have hq0in : q0 ∈ (m.filterMap padOf).filter (splitAccepts key) := by
+    rw [List.mem_filter, List.mem_filterMap]
+    exact ⟨⟨r0, hr0, hq0⟩, (splitAccepts_iff key q0).2 hq0a⟩
+  obtain ⟨qm, hqm, hqmc⟩ := maxCtr_attained _ q0 hq0in
+  simp only [latestPads, Gen.ClientRead.vaultSplitFiltersBeforeMax, ↓reduceIte]
+  intro hnil
+  have : qm ∈ ((m.filterMap padOf).filter (splitAccepts key)).filter
+      (fun p => p.ctr == maxCtr ((m.filterMap padOf).filter (splitAccepts key))) := by
+    rw [List.mem_filter]; exact ⟨hqm, by simp [hqmc]⟩
+  rw [hnil] at this; cases this
+
+/-- `vault_authentic` for the network layer with and without the address check of its split handling. -/
+theorem vault_authentic_any (chk : Bool) (padKey : Nat → Nat) (key : Nat) (reply : Reply B) (p : Pad)
+    (h : getVaultWith chk padKey key reply = .ok p) :
     Authentic key p ∧ (∃ r ∈ received reply, padOf r = some p) ∧
-      ∀ r ∈ received reply, headerOf r = some .scratchpad → ∀ q, padOf r = some q → Authentic key q → q.ctr ≤ p.ctr := by
-  unfold getVault at h
+      ∀ q, ReceivedVersion reply q → Authentic key q → q.ctr ≤ p.ctr := by
+  unfold getVaultWith at h
   split at h
   · -- the network layer handed up one record
     rename_i record hnet
@@ -135,7 +217,7 @@ theorem vault_authentic (key : Nat) (reply : Reply B) (p : Pad) (h : getVault ke
           simp only [netGet, Except.ok.injEq] at hnet
           subst hnet
           refine ⟨hauth, ⟨r, by simp [received], hp'⟩, ?_⟩
-          intro x hx _ q hq _
+          rintro q ⟨x, hx, _, hq⟩ _
           simp only [received, List.mem_singleton] at hx
           subst hx
           rw [hp'] at hq; cases hq; exact Nat.le_refl _
@@ -147,14 +229,15 @@ theorem vault_authentic (key : Nat) (reply : Reply B) (p : Pad) (h : getVault ke
             · rename_i r' hsplit
               simp only [Except.ok.injEq] at hnet
               subst hnet
-              obtain ⟨p0, hr, _, hfrom, hbound⟩ := handleSplit_spec m r' hsplit
+              obtain ⟨p0, hr, _, _, ⟨x, hxm, _, hxp⟩, hbound⟩ := handleSplit_spec chk padKey (padKey key) m r' hsplit
               subst hr
               simp only [padOf, Option.some.injEq] at hp'
               subst hp'
-              refine ⟨hauth, ?_, ?_⟩
-              · simpa [received] using hfrom
-              · intro x hx hxh q hq hqa
-                exact hbound x (by simpa [received] using hx) hxh q hq hqa.2
+              refine ⟨hauth, ⟨x, by simpa [received] using hxm, hxp⟩, ?_⟩
+              rintro q ⟨y, hy, hyh, hq⟩ hqa
+              refine hbound y (by simpa [received] using hy) hyh q hq hqa.2 ?_
+              -- an authentic version lives at the requested key, so the address check lets it through
+              simp [passes, hqa.1]
             · cases hnet
           | notFound => simp [netGet] at hnet
           | timeout => simp [netGet] at hnet
@@ -184,134 +267,138 @@ theorem vault_authentic (key : Nat) (reply : Reply B) (p : Pad) (h : getVault ke
     split at h
     · split at h
       · rename_i p' rest hsel
-        simp only [latestPads, Gen.ClientRead.vaultSplitFiltersBeforeMax, ↓reduceIte] at hsel
         simp only [Except.ok.injEq] at h
         subst h
-        have hmem : p' ∈ ((m.filterMap padOf).filter (splitAccepts key)).filter
-            (fun p => p.ctr == maxCtr ((m.filterMap padOf).filter (splitAccepts key))) := by
-          rw [hsel]; exact List.mem_cons_self
-        rw [List.mem_filter] at hmem
-        obtain ⟨hin, hmax⟩ := hmem
-        rw [List.mem_filter, List.mem_filterMap] at hin
-        obtain ⟨⟨x, hx, hxp⟩, hacc⟩ := hin
-        refine ⟨(splitAccepts_iff key p').1 hacc, ⟨x, by simpa [received] using hx, hxp⟩, ?_⟩
-        intro y hy _ q hq hqa
-        have hqin : q ∈ (m.filterMap padOf).filter (splitAccepts key) := by
-          rw [List.mem_filter, List.mem_filterMap]
-          exact ⟨⟨y, by simpa [received] using hy, hq⟩, (splitAccepts_iff key q).2 hqa⟩
-        have := maxCtr_ge _ q hqin
-        simp only [beq_iff_eq] at hmax
-        omega
+        obtain ⟨ha, hfrom, hmax⟩ := latestPads_spec key m p' rest hsel
+        refine ⟨ha, by simpa [received] using hfrom, ?_⟩
+        rintro q ⟨y, hy, _, hq⟩ hqa
+        exact hmax y (by simpa [received] using hy) q hq hqa
       · cases h
     · cases h
   · cases h
+
+/-- A returned pad is owned by the requested key, validly signed, is one of the received versions, and no validly
+signed version of the owner that was received as a scratchpad record (`ReceivedVersion`: under a `Scratchpad` header —
+"highest counter among those received" is about scratchpad records, see there) has a higher counter. -/
+theorem vault_authentic (padKey : Nat → Nat) (key : Nat) (reply : Reply B) (p : Pad)
+    (h : getVault padKey key reply = .ok p) :
+    Authentic key p ∧ (∃ r ∈ received reply, padOf r = some p) ∧
+      ∀ q, ReceivedVersion reply q → Authentic key q → q.ctr ≤ p.ctr :=
+  vault_authentic_any _ padKey key reply p h
 
 /-! ### vault_returns_authentic_max — forged and foreign versions are discarded, they do not decide the outcome -/
 
 /-- When the network layer hands the vault read one record that is a version owned by the requested key with a valid
 signature, that version is returned. -/
-theorem vault_returns_authentic_single (key : Nat) (reply : Reply B) (r : Rec B) (p : Pad)
-    (hnet : netGet reply = .ok r) (hp : padOf r = some p) (hauth : Authentic key p) :
-    getVault key reply = .ok p := by
-  unfold getVault
-  rw [hnet]
-  simp only [hp, (okAccepts_iff key p).2 hauth, ↓reduceIte]
+theorem vault_returns_authentic_single (padKey : Nat → Nat) (key : Nat) (r : Rec B) (p : Pad)
+    (hp : padOf r = some p) (hauth : Authentic key p) :
+    getVault padKey key (.ok r) = .ok p := by
+  unfold getVault getVaultWith
+  simp only [netGet, hp, (okAccepts_iff key p).2 hauth, ↓reduceIte]
 
-/-- When the split reaches the vault read and the map holds at least one version owned by the requested key with a
-valid signature — next to whatever unsigned, wrongly signed, foreign or undecodable entries, with whatever counters —
-the read succeeds with such a version of the highest counter among them. -/
-theorem vault_returns_authentic_max (key : Nat) (reply : Reply B) (m : List (Rec B))
-    (hnet : netGet reply = .error (.split m))
-    (hex : ∃ r ∈ m, ∃ q, padOf r = some q ∧ Authentic key q) :
-    ∃ p, getVault key reply = .ok p ∧ Authentic key p ∧ (∃ r ∈ m, padOf r = some p) ∧
-      ∀ r ∈ m, ∀ q, padOf r = some q → Authentic key q → q.ctr ≤ p.ctr := by
-  obtain ⟨r0, hr0, q0, hq0, hq0a⟩ := hex
-  -- the authentic versions, and one of the highest counter among them
-  have hq0in : q0 ∈ (m.filterMap padOf).filter (splitAccepts key) := by
-    rw [List.mem_filter, List.mem_filterMap]
-    exact ⟨⟨r0, hr0, hq0⟩, (splitAccepts_iff key q0).2 hq0a⟩
-  obtain ⟨qm, hqm, hqmc⟩ := maxCtr_attained _ q0 hq0in
-  have hne : latestPads key m ≠ [] := by
-    simp only [latestPads, Gen.ClientRead.vaultSplitFiltersBeforeMax, ↓reduceIte]
-    intro hnil
-    have : qm ∈ ((m.filterMap padOf).filter (splitAccepts key)).filter
-        (fun p => p.ctr == maxCtr ((m.filterMap padOf).filter (splitAccepts key))) := by
-      rw [List.mem_filter]; exact ⟨hqm, by simp [hqmc]⟩
-    rw [hnil] at this; cases this
-  cases hl : latestPads key m with
-  | nil => exact absurd hl hne
-  | cons p rest =>
-    have hres : getVault key reply = .ok p := by
-      unfold getVault
-      rw [hnet]
-      simp only [Gen.ClientRead.vaultSplitDropsUndeserialisable, Bool.true_or, ↓reduceIte, hl]
-    obtain ⟨ha, _, _⟩ := vault_authentic key reply p hres
-    have hmem : p ∈ latestPads key m := by rw [hl]; exact List.mem_cons_self
-    simp only [latestPads, Gen.ClientRead.vaultSplitFiltersBeforeMax, ↓reduceIte] at hmem
-    rw [List.mem_filter] at hmem
-    obtain ⟨hin, hmax⟩ := hmem
-    rw [List.mem_filter, List.mem_filterMap] at hin
-    obtain ⟨⟨x, hx, hxp⟩, _⟩ := hin
-    refine ⟨p, hres, ha, ⟨x, hx, hxp⟩, ?_⟩
-    intro y hy q hq hqa
-    have hqin : q ∈ (m.filterMap padOf).filter (splitAccepts key) := by
-      rw [List.mem_filter, List.mem_filterMap]
-      exact ⟨⟨y, hy, hq⟩, (splitAccepts_iff key q).2 hqa⟩
-    have := maxCtr_ge _ q hqin
-    simp only [beq_iff_eq] at hmax
-    omega
+/-- no pad in the map is foreign and yet lives at the requested record key (no collision of scratchpad addresses among
+the pads at hand) -/
+def PadKeysDistinct (padKey : Nat → Nat) (key : Nat) (m : List (Rec B)) : Prop :=
+  ∀ r ∈ m, ∀ q, padOf r = some q → padKey q.owner = padKey key → q.owner = key
+
+/-- "Unsigned or foreign versions are discarded", at full strength, for a network layer whose split handling does
+(`chk`) or does not compare pad addresses: whenever the result map of a split read holds a version owned by the
+requested key with a valid signature — next to whatever unsigned, wrongly signed, FOREIGN or undecodable entries, with
+whatever counters, in whatever iteration order, under whatever headers — the read succeeds with an authentic version
+whose counter is the highest among the authentic versions received. -/
+def SplitReturnsAuthenticMax (B : Type) (chk : Bool) : Prop :=
+  ∀ (padKey : Nat → Nat) (key : Nat) (m : List (Rec B)), PadKeysDistinct padKey key m →
+    (∃ r ∈ m, ∃ q, padOf r = some q ∧ Authentic key q) →
+    ∃ p, getVaultWith chk padKey key (.err (.split m)) = .ok p ∧ Authentic key p ∧ (∃ r ∈ m, padOf r = some p) ∧
+      ∀ q, ReceivedVersion (.err (.split m)) q → Authentic key q → q.ctr ≤ p.ctr
+
+def good : Pad := { owner := 0, ctr := 3, valid := true, ver := 0 }
+def newer : Pad := { owner := 0, ctr := 4, valid := true, ver := 1 }
+def foreign : Pad := { owner := 1, ctr := 9, valid := true, ver := 1 }
+def unsigned : Pad := { owner := 0, ctr := 9, valid := false, ver := 1 }
+
+/-- FALSE of the code as it was (network layer without the address check): a validly signed pad of ANOTHER owner with a
+higher counter wins inside `handle_split_record_error`, the client's own owner filter then refuses it and the whole
+read fails although an authentic version was received. Reproduced on the real code: `vault 0 sp=s:P0.3.v.0,s:P1.9.v.1`
+gave `err invalid` (now `ok 0.3.0`; replayable, it is in the harness corpus and found again by the model search when
+the check is removed). -/
+theorem split_foreign_pad_hides_authentic_witness : ¬ SplitReturnsAuthenticMax Nat false := by
+  intro h
+  obtain ⟨p, hp, _⟩ := h id 0 [⟨some .scratchpad, .pad good⟩, ⟨some .scratchpad, .pad foreign⟩]
+    (by
+      intro r hr q hq hk
+      simp only [List.mem_cons, List.not_mem_nil, or_false] at hr
+      rcases hr with rfl | rfl <;> (simp only [padOf, Option.some.injEq] at hq; subst hq; exact hk))
+    ⟨_, List.mem_cons_self, good, rfl, rfl, rfl⟩
+  have hval : getVaultWith (B := Nat) false id 0
+      (.err (.split [⟨some .scratchpad, .pad good⟩, ⟨some .scratchpad, .pad foreign⟩])) = .error .invalid := rfl
+  rw [hval] at hp
+  cases hp
+
+/-- With the address check in the network layer's split handling the clause holds. -/
+theorem split_returns_authentic_max_checked : SplitReturnsAuthenticMax B true := by
+  intro padKey key m hcf hex
+  have key_step : ∃ p, getVaultWith true padKey key (.err (.split m)) = .ok p := by
+    unfold getVaultWith
+    simp only [netGet]
+    cases hs : handleSplit true padKey (padKey key) m with
+    | some r =>
+      -- the network layer reduced the split to one pad: it lives at the requested key, so it is the owner's
+      obtain ⟨p0, hr, hv, hpass, ⟨x, hxm, _, hxp⟩, _⟩ := handleSplit_spec true padKey (padKey key) m r hs
+      subst hr
+      have hown : p0.owner = key := hcf x hxm p0 hxp (by simpa [passes] using hpass)
+      refine ⟨p0, ?_⟩
+      simp only [padOf, (okAccepts_iff key p0).2 ⟨hown, hv⟩, ↓reduceIte]
+    | none =>
+      -- the split reached the client, whose filter keeps the authentic versions
+      simp only [Gen.ClientRead.vaultSplitDropsUndeserialisable, Bool.true_or, ↓reduceIte]
+      cases hl : latestPads key m with
+      | nil => exact absurd hl (latestPads_ne_nil key m hex)
+      | cons p rest => exact ⟨p, rfl⟩
+  obtain ⟨p, hp⟩ := key_step
+  obtain ⟨ha, hfrom, hmax⟩ := vault_authentic_any true padKey key _ p hp
+  exact ⟨p, hp, ha, by simpa [received] using hfrom, hmax⟩
+
+/-- The clause for the code as it is: the flag regenerated from `ant-networking/src/lib.rs` says the check is there. -/
+theorem vault_returns_authentic_max (padKey : Nat → Nat) (key : Nat) (m : List (Rec B))
+    (hcf : PadKeysDistinct padKey key m) (hex : ∃ r ∈ m, ∃ q, padOf r = some q ∧ Authentic key q) :
+    ∃ p, getVault padKey key (.err (.split m)) = .ok p ∧ Authentic key p ∧ (∃ r ∈ m, padOf r = some p) ∧
+      ∀ q, ReceivedVersion (.err (.split m)) q → Authentic key q → q.ctr ≤ p.ctr := by
+  have hflag : Gen.ClientRead.netSplitChecksPadKey = true := rfl
+  unfold getVault
+  rw [hflag]
+  exact split_returns_authentic_max_checked padKey key m hcf hex
 
 /-! ### no_authentic_no_data -/
 
 /-- No received record carries content that hashes to the requested address ⇒ the chunk read fails. -/
-theorem no_authentic_no_chunk (S : SE B DM) (addr : Nat) (reply : Reply B)
+theorem no_authentic_no_chunk (S : SE B DM) (padKey : Nat → Nat) (addr : Nat) (reply : Reply B)
     (hno : ∀ r ∈ received reply, ∀ v, r.body = .chunk v → S.hash v ≠ addr) :
-    ∃ e, chunkGet S addr reply = .error e := by
-  cases hres : chunkGet S addr reply with
+    ∃ e, chunkGet S padKey addr reply = .error e := by
+  cases hres : chunkGet S padKey addr reply with
   | error e => exact ⟨e, rfl⟩
   | ok c =>
     exfalso
-    obtain ⟨r, hnet, _, hbody⟩ := chunk_kind_checked S addr reply c hres
-    have hhash := (chunk_authentic S addr reply c hres).1
-    cases reply with
-    | ok r0 =>
-      simp only [netGet, Except.ok.injEq] at hnet
-      subst hnet
-      exact hno r0 (by simp [received]) c.value hbody hhash
-    | err e =>
-      cases e with
-      | split m =>
-        simp only [netGet] at hnet
-        split at hnet
-        · rename_i r' hsplit
-          simp only [Except.ok.injEq] at hnet
-          subst hnet
-          obtain ⟨p0, hr, _⟩ := handleSplit_spec m r' hsplit
-          subst hr
-          cases hbody
-        · cases hnet
-      | notFound => simp [netGet] at hnet
-      | timeout => simp [netGet] at hnet
-      | kindMismatch => simp [netGet] at hnet
-      | notEnoughCopies => simp [netGet] at hnet
-      | doesNotMatch => simp [netGet] at hnet
+    obtain ⟨r, hr, hbody⟩ := chunk_from_received S padKey addr reply c hres
+    exact hno r hr c.value hbody (chunk_authentic S padKey addr reply c hres).1
 
 /-- No received version is owned by the requested key and validly signed ⇒ the vault read fails. -/
-theorem no_authentic_no_vault (key : Nat) (reply : Reply B)
+theorem no_authentic_no_vault (padKey : Nat → Nat) (key : Nat) (reply : Reply B)
     (hno : ∀ r ∈ received reply, ∀ q, padOf r = some q → ¬ Authentic key q) :
-    ∃ e, getVault key reply = .error e := by
-  cases hres : getVault key reply with
+    ∃ e, getVault padKey key reply = .error e := by
+  cases hres : getVault padKey key reply with
   | error e => exact ⟨e, rfl⟩
   | ok p =>
     exfalso
-    obtain ⟨hauth, ⟨r, hr, hp⟩, _⟩ := vault_authentic key reply p hres
+    obtain ⟨hauth, ⟨r, hr, hp⟩, _⟩ := vault_authentic padKey key reply p hres
     exact hno r hr p hp hauth
 
 /-- If the data-map chunk cannot be authenticated the public data read fails (no unauthenticated data). -/
-theorem no_authentic_no_data (S : SE B DM) (replies : Nat → Reply B) (fuel : Nat) (codes : List (List Nat)) (addr : Nat)
+theorem no_authentic_no_data (S : SE B DM) (padKey : Nat → Nat) (replies : Nat → Reply B) (fuel : Nat)
+    (codes : List (List Nat)) (addr : Nat)
     (hno : ∀ r ∈ received (replies addr), ∀ v, r.body = .chunk v → S.hash v ≠ addr) :
-    ∃ e, dataGetPublic S replies fuel codes addr = .error e := by
-  obtain ⟨e, he⟩ := no_authentic_no_chunk S addr (replies addr) hno
+    ∃ e, dataGetPublic S padKey replies fuel codes addr = .error e := by
+  obtain ⟨e, he⟩ := no_authentic_no_chunk S padKey addr (replies addr) hno
   exact ⟨e, by simp [dataGetPublic, he]⟩
 
 /-! ### Non-vacuity: authentic replies are accepted, the adversarial ones of F-k / F-l are refused -/
@@ -331,27 +418,28 @@ def toy : SE Nat Nat where
   bin b := b
   unbin _ := none
 
-example : (chunkGet toy 7 (.ok ⟨some .chunk, .chunk 7⟩)).toOption.map (·.value) = some 7 := by decide
-example : (chunkGet toy 7 (.ok ⟨some .chunk, .chunk 8⟩)).toOption.map (·.value) = none := by decide
-example : (chunkGet toy 7 (.ok ⟨some .scratchpad, .chunk 7⟩)).toOption.map (·.value) = none := by decide
+example : (chunkGet toy id 7 (.ok ⟨some .chunk, .chunk 7⟩)).toOption.map (·.value) = some 7 := by decide
+example : (chunkGet toy id 7 (.ok ⟨some .chunk, .chunk 8⟩)).toOption.map (·.value) = none := by decide
+example : (chunkGet toy id 7 (.ok ⟨some .scratchpad, .chunk 7⟩)).toOption.map (·.value) = none := by decide
 
-def good : Pad := { owner := 0, ctr := 3, valid := true, ver := 0 }
-def newer : Pad := { owner := 0, ctr := 4, valid := true, ver := 1 }
-def foreign : Pad := { owner := 1, ctr := 9, valid := true, ver := 1 }
-def unsigned : Pad := { owner := 0, ctr := 9, valid := false, ver := 1 }
-
-example : getVault (B := Nat) 0 (.ok ⟨some .scratchpad, .pad good⟩) = .ok good := rfl
-example : getVault (B := Nat) 0 (.ok ⟨some .scratchpad, .pad foreign⟩) = .error .invalid := rfl
-example : getVault (B := Nat) 0 (.ok ⟨some .scratchpad, .pad unsigned⟩) = .error .invalid := rfl
-example : getVault (B := Nat) 0 (.err (.split [⟨some .scratchpad, .pad good⟩, ⟨some .scratchpad, .pad newer⟩])) = .ok newer := rfl
-example : getVault (B := Nat) 0 (.err (.split [⟨some .scratchpad, .pad good⟩, ⟨some .scratchpad, .pad unsigned⟩])) = .ok good := rfl
-example : getVault (B := Nat) 0 (.err (.split [⟨some .chunk, .junk⟩, ⟨some .scratchpad, .pad good⟩, ⟨some .scratchpad, .pad foreign⟩]))
+example : getVault (B := Nat) id 0 (.ok ⟨some .scratchpad, .pad good⟩) = .ok good := rfl
+example : getVault (B := Nat) id 0 (.ok ⟨some .scratchpad, .pad foreign⟩) = .error .invalid := rfl
+example : getVault (B := Nat) id 0 (.ok ⟨some .scratchpad, .pad unsigned⟩) = .error .invalid := rfl
+example : getVault (B := Nat) id 0 (.err (.split [⟨some .scratchpad, .pad good⟩, ⟨some .scratchpad, .pad newer⟩])) = .ok newer := rfl
+example : getVault (B := Nat) id 0 (.err (.split [⟨some .scratchpad, .pad good⟩, ⟨some .scratchpad, .pad unsigned⟩])) = .ok good := rfl
+example : getVault (B := Nat) id 0 (.err (.split [⟨some .chunk, .junk⟩, ⟨some .scratchpad, .pad good⟩, ⟨some .scratchpad, .pad foreign⟩]))
     = .ok good := rfl
 /-- a forged higher-counter version next to the authentic one does not turn the read into `Missing` -/
-example : getVault (B := Nat) 0 (.err (.split [⟨some .chunk, .junk⟩, ⟨some .scratchpad, .pad good⟩, ⟨some .scratchpad, .pad unsigned⟩]))
+example : getVault (B := Nat) id 0 (.err (.split [⟨some .chunk, .junk⟩, ⟨some .scratchpad, .pad good⟩, ⟨some .scratchpad, .pad unsigned⟩]))
     = .ok good := rfl
-example : getVault (B := Nat) 0 (.err (.split [⟨some .scratchpad, .pad unsigned⟩, ⟨some .scratchpad, .pad foreign⟩]))
+example : getVault (B := Nat) id 0 (.err (.split [⟨some .scratchpad, .pad unsigned⟩, ⟨some .scratchpad, .pad foreign⟩]))
+    = .error .missing := rfl
+/-- the foreign higher-counter pad no longer hides the authentic one (it did: `getVaultWith false`) -/
+example : getVault (B := Nat) id 0 (.err (.split [⟨some .scratchpad, .pad good⟩, ⟨some .scratchpad, .pad foreign⟩])) = .ok good := rfl
+example : getVaultWith (B := Nat) false id 0 (.err (.split [⟨some .scratchpad, .pad good⟩, ⟨some .scratchpad, .pad foreign⟩]))
     = .error .invalid := rfl
+example : getVault (B := Nat) id 0 (.err (.split [⟨some .scratchpad, .pad foreign⟩, ⟨some .scratchpad, .pad newer⟩, ⟨some .scratchpad, .pad good⟩]))
+    = .ok newer := rfl
 
 end Examples
 
@@ -364,6 +452,10 @@ end SafeNet.Props.C15
 #print axioms SafeNet.Props.C15.vault_authentic
 #print axioms SafeNet.Props.C15.vault_returns_authentic_single
 #print axioms SafeNet.Props.C15.vault_returns_authentic_max
+#print axioms SafeNet.Props.C15.split_returns_authentic_max_checked
+#print axioms SafeNet.Props.C15.split_foreign_pad_hides_authentic_witness
+#print axioms SafeNet.Props.C15.vault_authentic_any
+#print axioms SafeNet.Props.C15.chunk_from_received
 #print axioms SafeNet.Props.C15.no_authentic_no_chunk
 #print axioms SafeNet.Props.C15.no_authentic_no_vault
 #print axioms SafeNet.Props.C15.no_authentic_no_data
